@@ -39,6 +39,8 @@ func C13(tier rt.Tier) int {
 			{name: "deep-pair", keys: []int{0, 1}, vals: []string{"a", "b", "c"}, levels: []int{0, 1, 64}, gc: true, depth: 8, c13: true, maxNoDup: 5},
 			// one key, much deeper: many commits and collection passes before the checkpoint
 			{name: "1key-very-deep", keys: []int{0}, vals: []string{"a", "b"}, levels: []int{0}, gc: true, depth: 12, c13: true, maxNoDup: 7},
+			// collection passes whose storage write is rejected (and retried) before the rollback
+			{name: "2keys-failing-gc-writes", keys: []int{0, 5}, vals: []string{"a", "b"}, levels: []int{0}, gc: true, gcFault: true, depth: 10, c13: true, maxNoDup: 6},
 		}
 	} else {
 		per = 5 * time.Minute
